@@ -255,6 +255,12 @@ void parallel_sort_mwms_pu(PMWMSSortingData<RandomAccessIterator>* sd,
 
     barrier.wait();
 
+    // all threads have finished merging out of the temporary storage: destroy
+    // the copies constructed by std::uninitialized_copy() above (the sentinel
+    // slot at the end is never constructed) before releasing the raw memory.
+    for (DiffType i = 0; i < length_local; ++i)
+        sd->temporary[iam][i].~ValueType();
+
     operator delete(sd->temporary[iam]);
 }
 
